@@ -50,6 +50,7 @@ __CPROVER_ensures(sq_thrown==0 && zero_fill && gk<dim*dim ==> ret->components[gk
 {
 //@BODY file=src/SUNalg.cpp sig=/SU_vector\s+SU_vector::make_aligned\s*\(/ rules=common,suv_locals
 //@SUB /return\s*\(\s*v\s*\)\s*;/*ret=v; return;/ min=1
+//@SUB /(?<![\w.])alloc_aligned\s*\(\s*([\w.]+)\s*,\s*([\w.]+)\s*,\s*([\w.]+)\s*,\s*([\w.]+)\s*\)\s*;/su_alloc_aligned(\1,\2,&\3,&\4); SQ_PROPAGATE_D(v);   \/* stack unwinding destroys the local v *\// min=1
 }
 
 /* ComponentsFromMatrices: frame + ghost log (value contract is Layer 2) */
